@@ -23,6 +23,9 @@ type SolverStats struct {
 	Errors   int
 	Time     time.Duration
 	MaxQuery time.Duration
+	SendTime time.Duration
+	Bytes    int
+	GetValueCalls int
 }
 
 type Solver struct {
@@ -108,8 +111,11 @@ func (s *Solver) send(line string) {
 	if s.log != nil {
 		io.WriteString(s.log, line+"\n")
 	}
+	t0 := time.Now()
 	s.in.WriteString(line)
 	s.in.WriteByte('\n')
+	s.Stats.SendTime += time.Since(t0)
+	s.Stats.Bytes += len(line) + 1
 }
 
 func sortStr(w int) string {
@@ -353,6 +359,9 @@ func (s *Solver) readSexpr() (string, error) {
 // GetValues evaluates terms in the current model (call directly after a Sat Check in the same
 // context).  Returns values in order; Bool as 0/1.
 func (s *Solver) GetValues(ts []*Term) ([]uint64, error) {
+	t0 := time.Now()
+	s.Stats.GetValueCalls++
+	defer func() { s.Stats.SendTime += time.Since(t0) }()
 	out := make([]uint64, len(ts))
 	var q []int
 	var refs []string
